@@ -1,5 +1,6 @@
 import DirectVerif.Gen.C13
 import DirectVerif.Model.Sampler
+import DirectVerif.Model.C13Machine
 /-!
 # Bridge C13 — what the translator reads in `/repo` equals the hand-written sampler model
 
@@ -141,5 +142,26 @@ theorem dist_structure_eq : dist_structure = expectedDistStructure := rfl
 /-- the concat sampler draws the member with weights = lengths and advances that member's generator
 (`Sampler.concatRun`) -/
 theorem concat_next_eq : concat_next = expectedConcatNext := rfl
+
+/-! ### phase 3: the object across iterators -/
+
+/-- what the multi-iterator machine (`Model/C13Machine.lean`) relies on, read from the source: no method other
+than `__init__` writes / advances anything on `self`, `__init__` stores no one-shot iterator, `__iter__` reads only
+`batch_size`, `end_of_volume`, `sampler`, rebuilds its lookup locally, and the inner sampler's `__iter__` is a
+fresh `iter(self.indices)` -/
+theorem iter_tables_wf :
+    (IterTables.mk bvs_iter_self_writes bvs_iter_self_reads bvs_other_method_writes bvs_init_iterator_attrs
+      bvs_iter_rebuilds bvs_len_is_num_batches seq_iter_is_indices seq_method_writes).wf = true := by decide
+
+theorem bvs_other_method_writes_eq : bvs_other_method_writes = [] := by decide
+theorem bvs_init_iterator_attrs_eq : bvs_init_iterator_attrs = [] := by decide
+theorem seq_method_writes_eq : seq_method_writes = [] := by decide
+
+/-- the volume limit is applied to the list that is then distributed over the ranks (`rankVols`:
+`chunks (applyLimit …) world`), not to a rank's chunk -/
+theorem seq_init_order_eq : seq_init_order = expectedSeqInitOrder := by decide
+
+/-- seed / rank / world size of `DistributedSampler`: a missing seed is replaced by the seed shared by all processes -/
+theorem dist_init_seed_eq : dist_init_seed = expectedDistInit := by decide
 
 end DirectVerif.Bridge.C13
